@@ -1,12 +1,13 @@
 #!/usr/bin/env python3
-"""seed_store.py <Cxx> <n> <confirm-output-file> : store a confirmed seeded change under /verif/seeded/<Cxx>-<n>/"""
+"""seed_store.py <Cxx> <n> <confirm-output-file> [src_dir] [stored_number] : store a confirmed seeded change under /verif/seeded/<Cxx>-<n>/"""
 import json, os, shutil, sys
 pid, n, conf = sys.argv[1], sys.argv[2], sys.argv[3]
-src = f"/tmp/wt-{pid}/_seed"
+src = sys.argv[4] if len(sys.argv) > 4 else f"/tmp/wt-{pid}/_seed"
+dn = sys.argv[5] if len(sys.argv) > 5 else n
 out = open(conf).read()
 if "CONFIRMED" not in out.splitlines()[-1:][0] or "NOT-CONFIRMED" in out:
     print("not confirmed:", out[-400:]); sys.exit(1)
-dst = f"/verif/seeded/{pid}-{n}"
+dst = f"/verif/seeded/{pid}-{dn}"
 shutil.rmtree(dst, ignore_errors=True)
 os.makedirs(dst)
 shutil.copy(f"{src}/patch{n}.diff", f"{dst}/patch.diff")
